@@ -870,3 +870,80 @@ def rule_directory_slot_live(ctx):
                 ctx.violated("SLOTLIVE", key, f.where(line), "`%s.%s` is read with no test of the slot's annref: unused slots of a block DFANIaddentry allocated hold uninitialised memory there" % (slot[:40], x[2]))
     ctx.floor("SLOTLIVE", 2, n, "(reads of a DFAN directory slot's object tag/ref)")
     return n
+
+
+def rule_annotation_pair_out(ctx):
+    """ANNREFOUT (C11): an ANentry names two objects: the annotation itself (`annref`, with a tag that follows from its type) and
+    the element it annotates (`elmtag`, `elmref`).  A routine that hands out a tag/ref pair whose *tag* is one of the
+    annotation tags (DFTAG_DIL, DFTAG_DIA, DFTAG_FID, DFTAG_FD) is describing the annotation, so the reference stored through
+    its out-parameter comes from `annref`.  With `elmref` the pair names nothing (or another annotation): ANtagref2id of the
+    reported pair fails and several labels of one object report the same pair."""
+    from .facts import int_name
+    prog = ctx.prog
+    ANN_TAGS = {"DFTAG_DIL", "DFTAG_DIA", "DFTAG_FID", "DFTAG_FD"}
+    n = 0
+    for f in prog.lib_funcs():
+        if not f.rel.endswith("hdf/src/mfan.c"):
+            continue
+        params = {(p[0] if isinstance(p, (list, tuple)) else p.get("name")) for p in f.params}
+        tag_out = False
+        ref_stores = []
+        for _b, _i, s, x in f.nodes(True):
+            if x[0] == "asg" and x[1] == "=" and kind(strip(x[2])) == "deref" and kind(strip(strip(x[2])[1])) == "var" and strip(strip(x[2])[1])[1] in params:
+                r = strip(x[3])
+                if kind(r) == "int" and int_name(r) in ANN_TAGS:
+                    tag_out = True
+                mf = mem_field(r)
+                if mf and mf[0] == "ANentry":
+                    ref_stores.append((s.get("l", f.line), strip(strip(x[2])[1])[1], mf[1]))
+        if not tag_out or not ref_stores:
+            continue
+        for line, p, fld in ref_stores:
+            n += 1
+            key = "ANNREFOUT:%s:%s" % (f.name, p)
+            if fld == "annref":
+                ctx.holds("ANNREFOUT", key, f.where(line), "`*%s` is the annotation's own reference, to go with the annotation tag the routine reports" % p, nontrivial=True)
+            else:
+                ctx.violated("ANNREFOUT", key, f.where(line), "the routine reports an annotation tag but stores `%s` through `*%s`: the pair names the annotated element's reference under the annotation's tag" % (fld, p))
+    ctx.floor("ANNREFOUT", 1, n, "(annotation tag/ref pairs handed out through pointers)")
+    return n
+
+
+def rule_length_forwarded(ctx):
+    """LENFWD (C11): annotation text is a counted byte string - it may hold NUL bytes, and the caller's count is the length.
+    A writer that receives (text, length) hands that length to the element write as it came: the parameter is not given a
+    new value on the way (no `strlen` clamp, no rounding).  Cut at the first NUL, a description written with its exact length
+    comes back shorter while the call reported success."""
+    from .facts import calls_in
+    from .rules_loops import redefines
+    prog = ctx.prog
+    n = 0
+    WRITERS = {"Hputelement": 4, "Hwrite": 1}
+    for f in prog.lib_funcs():
+        if not f.rel.endswith(("hdf/src/dfan.c", "hdf/src/mfan.c")):
+            continue
+        lens = [(p[0] if isinstance(p, (list, tuple)) else p.get("name")) for p in f.params]
+        lens = [p for p in lens if p and "len" in p.lower()]
+        if not lens:
+            continue
+        for p in lens:
+            used = None
+            for _b, _i, s, c in f.calls():
+                if c[1] in WRITERS and len(c[3]) > WRITERS[c[1]]:
+                    a = strip(c[3][WRITERS[c[1]]])
+                    if kind(a) == "var" and a[1] == p:
+                        used = s.get("l", f.line)
+            if used is None:
+                continue
+            n += 1
+            key = "LENFWD:%s:%s" % (f.name, p)
+            changed = None
+            for _b, _i, s, x in f.nodes(True):
+                if x[0] in ("asg", "incdec") and redefines(x, p):
+                    changed = s.get("l", f.line)
+            if changed:
+                ctx.violated("LENFWD", key, f.where(changed), "the caller's byte count `%s` is given a new value before it reaches the element write: the stored annotation is not the counted string the caller passed" % p)
+            else:
+                ctx.holds("LENFWD", key, f.where(used), "`%s` reaches the element write as the caller passed it" % p, nontrivial=True)
+    ctx.floor("LENFWD", 2, n, "(annotation writers that take a byte count)")
+    return n
